@@ -1,11 +1,17 @@
 """C06: concurrency limits hold, no slot idles, the build always finishes."""
 import nxprops
+import rbchecks
 
 RULE = ("same exploration core as C01 over pool/console/parallel templates and generated graphs, -j1/2/3/4: on every "
         "schedule running <= -j, per-pool <= depth, console <= 1, each statement started at most once per manifest cycle, "
         "never 'stuck', never a hang (wait with nothing running), step horizon never hit, and at every wait no statement "
         "that is started later was already startable with a free slot and pool room")
 
+RB_RULE = ("; engine B: the unmodified ninja executable as a client of a real FIFO jobserver holding 1-3 tokens, four independent "
+           "statements + link, a depth-1 pool, a statement whose start fails, failing commands (with and without touched "
+           "outputs, a child dying of SIGINT), -k1/-k0, default and reversed completion order, SIGINT at each of the first "
+           "three waits: the number of tokens in the FIFO after ninja exits must equal the number before, on every path")
+
 
 def main(argv):
-    nxprops.run_check("C06", argv, ["C06"], RULE)
+    nxprops.run_check("C06", argv, ["C06"], RULE + RB_RULE, process_level=rbchecks.c06_process_level)
